@@ -1,7 +1,7 @@
 (** C15 — property theorems (statements only; proofs are in Proofs_C15.v). *)
 From Coq Require Import ZArith List.
 From AwkV Require Import Base Layout Valid.
-From AwkJson Require Import Json Proofs_C15.
+From AwkJson Require Import Json Proofs_C15 Proofs_C15b Proofs_C15c Proofs_C15d Proofs_C15e Proofs_C15f Proofs_C15g Proofs_C15h.
 Import ListNotations.
 Open Scope Z_scope.
 
@@ -76,3 +76,237 @@ Theorem roundtrip_events : forall o c evs, tojson_events o c = Ok evs -> printab
   unwrap [map (handler o) evs] = One (map (handler o) evs).
 Proof. exact roundtrip_events_lemma. Qed.
 Print Assumptions roundtrip_events.
+
+(* ====================================================================================================
+   Session additions (Proofs_C15b .. Proofs_C15f)
+   ==================================================================================================== *)
+
+(* ---- the reader on ARBITRARY input *)
+(* the model's fuel is never exhausted: parse is total *)
+Theorem parse_total : forall bs, parse bs <> Err EFuel.
+Proof. exact parse_total_lemma. Qed.
+Print Assumptions parse_total.
+
+(* whatever parse accepts is a well-formed event sequence, read from a non-empty prefix of the input, whose structural
+   skeleton (the bytes [ ] { } , : outside strings and one quote per string, found by an independent three-state
+   scanner) is the skeleton of the events, and which ends outside any string *)
+Theorem parse_sound : forall bs evs rest, parse bs = Ok (evs, rest) ->
+  wf evs = true /\ exists u, bs = u ++ rest /\ u <> [] /\ skeleton u = esk PStart evs /\ run Out u = Out.
+Proof. exact parse_sound_lemma. Qed.
+Print Assumptions parse_sound.
+
+(* ... and the rendering has the same skeleton *)
+Theorem render_skeleton : forall evs, printable evs = true -> skeleton (render evs) = esk PStart evs.
+Proof. exact skeleton_render. Qed.
+Print Assumptions render_skeleton.
+
+(* every entry from_json hands to the builder is ONE complete well-formed value (never a partial array) *)
+Theorem do_parse_docs_wellformed : forall o text docs, do_parse o text = JDocs docs -> Forall (fun d => wf d = true) docs.
+Proof. exact do_parse_docs_wellformed_lemma. Qed.
+Print Assumptions do_parse_docs_wellformed.
+
+(* the loop is total: documents, "incomplete JSON object" or "JSON File error", never the model's out-of-fuel *)
+Theorem do_parse_total : forall o text, do_parse o text <> JErr JFuel.
+Proof. exact do_parse_total_lemma. Qed.
+Print Assumptions do_parse_total.
+
+(* ---- (e) truncation, exact *)
+(* a strict prefix of the text of a well-formed document parses ONLY IF the document is a bare number: arrays,
+   objects, strings, true / false / null at the root are all covered (supersedes truncation_errors_partial) *)
+Theorem truncation_errors : forall evs p s, wf evs = true -> printable evs = true ->
+  render evs = p ++ s -> s <> [] -> forall res, parse p = Ok res -> bare_number evs.
+Proof. exact truncation_exact_lemma. Qed.
+Print Assumptions truncation_errors.
+
+(* the exception, exactly: every strict prefix of the decimal text of an int64 parses, to a DIFFERENT integer,
+   except the empty prefix and a lone minus sign *)
+Theorem truncation_int_exact : forall z p s, -9223372036854775808 <= z < 9223372036854775808 ->
+  dec z = p ++ s -> s <> [] ->
+  ((p = [] \/ p = [45]) -> parse p = Err EValue) /\
+  (p <> [] -> p <> [45] -> exists z', parse p = Ok ([EInt z'], []) /\ z' <> z).
+Proof. exact truncation_int_exact_lemma. Qed.
+Print Assumptions truncation_int_exact.
+
+(* "digits.0": the prefix "digits" parses as an INTEGER event (another type), "digits." is an error *)
+Theorem truncation_real_exact : forall z, -9007199254740992 <= z <= 9007199254740992 ->
+  render [EReal (RZ z)] = dec z ++ [46; 48] /\
+  parse (dec z) = Ok ([EInt z], []) /\ parse (dec z ++ [46]) = Err EValue.
+Proof. exact truncation_real_exact_lemma. Qed.
+Print Assumptions truncation_real_exact.
+
+(* k complete documents followed by a truncated one (non-empty strict prefix of an array, object, string or
+   literal): an error; the k complete documents are NOT returned *)
+Theorem truncated_last_document : forall o w0 dws evs p s,
+  all_ws w0 -> Forall doc_ok dws -> seps_ok dws ->
+  wf evs = true -> printable evs = true -> ~ bare_number evs ->
+  render evs = p ++ s -> p <> [] -> s <> [] ->
+  exists e, do_parse o (w0 ++ docs_text dws ++ p) = JErr e /\ e <> JFuel.
+Proof. exact truncated_last_document_lemma. Qed.
+Print Assumptions truncated_last_document.
+
+(* ---- corruption of one structural byte ([ ] { } , : outside strings) into another structural byte: the JSON
+   error, or a well-formed event sequence different from the original; no third outcome.  _partial: only
+   structural -> structural replacements (not quotes, digits or bytes inside strings) *)
+Theorem single_byte_corruption_partial : forall evs A b B b',
+  wf evs = true -> printable evs = true ->
+  render evs = A ++ b :: B -> run Out A = Out -> is_struct b = true -> is_struct b' = true -> b <> b' ->
+  parse (A ++ b' :: B) = Err EValue \/
+  exists evs' rest, parse (A ++ b' :: B) = Ok (evs', rest) /\ wf evs' = true /\ evs' <> evs.
+Proof. exact single_byte_corruption_lemma. Qed.
+Print Assumptions single_byte_corruption_partial.
+
+(* ---- from_json = from_iter o json.loads, at the level of builder commands *)
+(* from_iter's command sequence determines the Python value *)
+Theorem fromiter_encoding_inverse : forall v, json_loads (cmds v) = Ok (v, []).
+Proof. exact loads_cmds_lemma. Qed.
+Print Assumptions fromiter_encoding_inverse.
+
+(* the commands the reader issues for a document are exactly the from_iter encoding of the value json.loads denotes *)
+Theorem fromjson_is_fromiter_doc : forall evs, wf evs = true -> exists v, json_loads evs = Ok (v, []) /\ cmds v = evs.
+Proof. exact fromjson_is_fromiter_events. Qed.
+Print Assumptions fromjson_is_fromiter_doc.
+
+(* for any text and options: every entry is built by the from_iter commands of json.loads of its events *)
+Theorem fromjson_is_fromiter : forall o text docs, do_parse o text = JDocs docs ->
+  Forall (fun d => exists v, json_loads d = Ok (v, []) /\ cmds v = d) docs.
+Proof. exact fromjson_is_fromiter_lemma. Qed.
+Print Assumptions fromjson_is_fromiter.
+
+(* Python dicts keep one item per key: the value is a genuine Python value exactly when no object repeats a key *)
+Theorem fromjson_is_fromiter_dict : forall evs, wf evs = true ->
+  exists v, json_loads evs = Ok (v, []) /\ (py_nodup v = true -> cmds (py_norm v) = evs).
+Proof. exact fromjson_is_fromiter_dict_lemma. Qed.
+Print Assumptions fromjson_is_fromiter_dict.
+
+(* a repeated key: field() is issued twice by the reader, once by from_iter(json.loads(text)) *)
+Theorem fromjson_is_fromiter_dupkeys_refuted :
+  exists text d v, do_parse no_opts text = JDocs [d] /\ json_loads d = Ok (v, []) /\ cmds v = d /\
+                   py_nodup v = false /\ cmds (py_norm v) <> d.
+Proof. exact fromjson_is_fromiter_dupkeys_refuted_thm. Qed.
+Print Assumptions fromjson_is_fromiter_dupkeys_refuted.
+
+(* to_json text read back with the default options: one document whose commands are the from_iter encoding of
+   json.loads of the very events to_json emitted *)
+Theorem fromjson_of_tojson : forall c evs, tojson_events no_opts c = Ok evs -> printable evs = true ->
+  forallb key_nulfree evs = true ->
+  exists v, do_parse no_opts (render evs) = JDocs [cmds v] /\ json_loads evs = Ok (v, []) /\ cmds v = evs.
+Proof. exact fromjson_of_tojson_lemma. Qed.
+Print Assumptions fromjson_of_tojson.
+
+(* ---- to_json *)
+(* (a) for every valid layout to_json succeeds and its event stream is well-formed and balanced (brackets match,
+   keys only directly inside objects, alternating with values: an independent stack-based checker) *)
+Theorem tojson_wellformed : forall o c, Valid None c -> bytes_ok c = true -> u64ok c = true ->
+  Proofs_ToList.chars_ok c = true ->
+  exists evs, tojson_events o c = Ok evs /\ wf evs = true /\ balanced evs = true.
+Proof. exact tojson_wellformed_lemma. Qed.
+Print Assumptions tojson_wellformed.
+
+Theorem events_balanced : forall o c evs, tojson_events o c = Ok evs -> balanced evs = true.
+Proof. exact events_balanced_lemma. Qed.
+Print Assumptions events_balanced.
+
+(* (b) widened: every node class; __array__ absent, "categorical" on any node, or string / bytestring in the shape
+   validityerror accepts.  What stays excluded is witnessed below (none of it is a valid layout) *)
+Theorem tojson_value_wide : forall o c vs, frag15w c = true -> u64ok c = true -> to_list c = Ok vs ->
+  exists evs, tojson_events o c = Ok evs /\ json_value evs = Ok (VList (map (jv o) vs), []).
+Proof. exact tojson_value_wide_lemma. Qed.
+Print Assumptions tojson_value_wide.
+
+Theorem frag15_in_frag15w : forall c, frag15 c = true -> frag15w c = true.
+Proof. exact frag15_frag15w. Qed.
+Print Assumptions frag15_in_frag15w.
+
+(* (b)+(c) at the TEXT level: the text parses back completely and folds into to_list up to jv, for leaves the text
+   carries exactly (text_exact: int64, integer-valued doubles up to 2^53, non-finite only with a chosen string,
+   byte-string keys) *)
+Theorem tojson_text_value : forall o c vs, frag15w c = true -> u64ok c = true -> text_exact o c = true ->
+  to_list c = Ok vs ->
+  exists evs, tojson_events o c = Ok evs /\ parse (render evs) = Ok (evs, []) /\
+              json_value evs = Ok (VList (map (jv o) vs), []).
+Proof. exact tojson_text_value_wide_lemma. Qed.
+Print Assumptions tojson_text_value.
+
+(* NaN / +inf / -inf leaves are written as the chosen strings and parse back to those strings *)
+Theorem tojson_nonfinite_strings : forall o d, opts_chosen o = true -> nonfinite d = true ->
+  exists s, real_ev o d = EStr s /\ Some s = match d with DNaN => nan_s o | DInf false => inf_s o | _ => minf_s o end /\
+            parse (render [real_ev o d]) = Ok ([EStr s], []) /\
+            json_value [real_ev o d] = Ok (jv o (VNum d), []).
+Proof. exact tojson_nonfinite_strings_lemma. Qed.
+Print Assumptions tojson_nonfinite_strings.
+
+(* ... and from_json with the same (NUL-free, pairwise different) strings turns them back into the numbers *)
+Theorem fromjson_restores_nonfinite : forall o d, opts_distinct o = true ->
+  handler o (real_ev o d) = EReal (rnum_of d).
+Proof. exact fromjson_restores_nonfinite_lemma. Qed.
+Print Assumptions fromjson_restores_nonfinite.
+
+(* no string chosen (the Python default): the text is not JSON (known finding c15-nonfinite-without-substitution) *)
+Theorem tojson_nonfinite_default_refuted :
+  exists o c evs, frag15 c = true /\ u64ok c = true /\ text_exact o c = false /\
+                  tojson_events o c = Ok evs /\ parse (render evs) = Err EValue.
+Proof. exact tojson_nonfinite_default_refuted_thm. Qed.
+Print Assumptions tojson_nonfinite_default_refuted.
+
+(* the exclusions of the fragment, witnessed: a char tag outside a string, a string whose content is not tagged
+   char, a char tag on an n-d NumpyArray — to_json and to_list disagree on each *)
+Theorem tojson_value_char_outside_string_refuted :
+  exists c vs v, frag15w c = false /\ to_list c = Ok vs /\
+                 (do e <- tojson_events ex_opts c; json_value e) = Ok (v, []) /\ v <> VList (map (jv ex_opts) vs).
+Proof. exact tojson_value_char_outside_string_refuted_thm. Qed.
+Print Assumptions tojson_value_char_outside_string_refuted.
+
+Theorem tojson_value_string_untagged_refuted :
+  exists c vs v, frag15w c = false /\ to_list c = Ok vs /\
+                 (do e <- tojson_events ex_opts c; json_value e) = Ok (v, []) /\ v <> VList (map (jv ex_opts) vs).
+Proof. exact tojson_value_string_untagged_refuted_thm. Qed.
+Print Assumptions tojson_value_string_untagged_refuted.
+
+Theorem tojson_value_char_nd_refuted :
+  exists c vs v, frag15w c = false /\ to_list c = Ok vs /\
+                 (do e <- tojson_events ex_opts c; json_value e) = Ok (v, []) /\ v <> VList (map (jv ex_opts) vs).
+Proof. exact tojson_value_char_nd_refuted_thm. Qed.
+Print Assumptions tojson_value_char_nd_refuted.
+
+(* ---- the uint64 exclusion made exact (known finding c15-uint64-wraps) *)
+(* to_json does not distinguish a layout from the same layout with its uint64 buffers viewed as int64 ... *)
+Theorem tojson_uint64_as_int64 : forall o c, tojson_events o (wrapv c) = tojson_events o c.
+Proof. exact tojson_events_wrapv. Qed.
+Print Assumptions tojson_uint64_as_int64.
+
+(* ... so, WITHOUT u64ok, the JSON value of an array is the to_list of that reinterpreted array *)
+Theorem tojson_value_uint64_exact : forall o c vs, frag15w (wrapv c) = true -> to_list (wrapv c) = Ok vs ->
+  exists evs, tojson_events o c = Ok evs /\ json_value evs = Ok (VList (map (jv o) vs), []).
+Proof. exact tojson_value_uint64_exact_lemma. Qed.
+Print Assumptions tojson_value_uint64_exact.
+
+(* u64ok cannot be dropped from tojson_value / tojson_value_wide *)
+Theorem tojson_value_uint64_refuted :
+  exists c vs v, frag15 c = true /\ u64ok c = false /\ to_list c = Ok vs /\
+                 (do e <- tojson_events ex_opts c; json_value e) = Ok (v, []) /\ v <> VList (map (jv ex_opts) vs).
+Proof. exact tojson_value_uint64_refuted_thm. Qed.
+Print Assumptions tojson_value_uint64_refuted.
+
+(* ---- corruption, general form: a structural byte replaced by ANY other byte, or deleted *)
+Theorem structural_byte_replaced : forall evs A b B b',
+  wf evs = true -> printable evs = true ->
+  render evs = A ++ b :: B -> run Out A = Out -> is_struct b = true -> b' <> b ->
+  parse (A ++ b' :: B) = Err EValue \/
+  exists evs' rest, parse (A ++ b' :: B) = Ok (evs', rest) /\ wf evs' = true /\ evs' <> evs.
+Proof. exact structural_byte_replaced_lemma. Qed.
+Print Assumptions structural_byte_replaced.
+
+Theorem structural_byte_deleted : forall evs A b B,
+  wf evs = true -> printable evs = true ->
+  render evs = A ++ b :: B -> run Out A = Out -> is_struct b = true ->
+  parse (A ++ B) = Err EValue \/
+  exists evs' rest, parse (A ++ B) = Ok (evs', rest) /\ wf evs' = true /\ evs' <> evs.
+Proof. exact structural_byte_deleted_lemma. Qed.
+Print Assumptions structural_byte_deleted.
+
+(* not extensible to non-structural bytes: "[1.0]" with '.' replaced by 'e' is "[1e0]", the same value *)
+Theorem nonstructural_byte_corruption_refuted :
+  exists evs A b B b', wf evs = true /\ printable evs = true /\ render evs = A ++ b :: B /\ run Out A = Out /\
+                       is_struct b = false /\ b' <> b /\ parse (A ++ b' :: B) = Ok (evs, []).
+Proof. exact nonstructural_byte_corruption_refuted_thm. Qed.
+Print Assumptions nonstructural_byte_corruption_refuted.
